@@ -27,6 +27,21 @@ struct TKV
     uint64_t                  k;
     VAL_T                     v;
 };
+// fifo_cache also exposes the iterator-pair overloads (insert(b,e,allow), erase(b,e), find(b,e[,distance]), find_range_fill(b,e));
+// RANGE_ITER_FORM=1 (or g_range_iter in the replay program) routes the range adapters below through them, with find's distance
+// argument left at its default.
+#ifndef T_ITER_FORMS
+#define T_ITER_FORMS 0
+#endif
+#ifndef RANGE_ITER_FORM
+#define RANGE_ITER_FORM 0
+#endif
+#ifdef RANGE_ITER_RUNTIME
+static bool g_range_iter = false;
+#define X_IT g_range_iter
+#else
+#define X_IT (RANGE_ITER_FORM)
+#endif
 #if T_PEEK_KIND == 1
 #define X_PEEK_ARG(pk) , ((pk) ? cappuccino::peek::yes : cappuccino::peek::no)
 #elif T_PEEK_KIND == 2
@@ -48,6 +63,9 @@ static inline size_t x_insert_range(C& c, const Ev* e, size_t n, uint8_t a)
     for (size_t i = 0; i < n; ++i) { r.a[i].first = e[i].k; r.a[i].second = VAL_T(e[i].v); }
 #endif
     r.n = n;
+#if T_ITER_FORMS
+    if (X_IT) return c.insert(r.begin(), r.end(), (cappuccino::allow)a);
+#endif
     return c.insert_range(r, (cappuccino::allow)a);
 }
 static inline size_t x_erase_range(C& c, const Ev* e, size_t n)
@@ -55,6 +73,9 @@ static inline size_t x_erase_range(C& c, const Ev* e, size_t n)
     Rng<uint64_t, RMAX> r;
     for (size_t i = 0; i < n; ++i) r.a[i] = e[i].k;
     r.n = n;
+#if T_ITER_FORMS
+    if (X_IT) return c.erase(r.begin(), r.end());
+#endif
     return c.erase_range(r);
 }
 // returns the number of results; out[i] = result i; *keys_ok = every result carries its input key, in input order
@@ -64,7 +85,11 @@ static inline size_t x_find_range(C& c, const Ev* e, size_t n, bool pk, Res* out
     Rng<uint64_t, RMAX> r;
     for (size_t i = 0; i < n; ++i) r.a[i] = e[i].k;
     r.n      = n;
+#if T_ITER_FORMS
+    auto res = X_IT ? c.find(r.begin(), r.end()) : c.find_range(r X_PEEK_ARG(pk));
+#else
     auto res = c.find_range(r X_PEEK_ARG(pk));
+#endif
     *keys_ok = true;
     size_t m = res.size();
     for (size_t i = 0; i < RMAX; ++i)
@@ -91,7 +116,11 @@ static inline void x_find_range_fill(C& c, const Ev* e, size_t n, bool pk, Res* 
 #endif
     for (size_t i = 0; i < n; ++i) { r.a[i].first = e[i].k; }
     r.n = n;
-    c.find_range_fill(r X_PEEK_ARG(pk));
+#if T_ITER_FORMS
+    if (X_IT) c.find_range_fill(r.begin(), r.end());
+    else
+#endif
+        c.find_range_fill(r X_PEEK_ARG(pk));
     *keys_ok = true;
     for (size_t i = 0; i < RMAX; ++i)
         if (i < n)
